@@ -118,10 +118,73 @@ def r2_dihedral(chk):
     ax_def = one(norm(ax)) if isinstance(ax, ast.Name) else norm(ax)
     ang_def = one(norm(ang)) if isinstance(ang, ast.Name) else norm(ang)
     dih = [n for n, vals in asg.items() for v in vals if isinstance(v, ast.Call) and norm(v.func) == "self.dihedral"]
-    okax = ax_def in (f"self.vector({a}[1], {a}[2])",)
-    okang = bool(dih) and ang_def in (f"target_angle - {dih[0]}",)
-    chk.decide(okax and okang, "C11.R2", f"{f.key}:axis-and-angle", f.where(rc), f"axis = {ax_def}; angle = {ang_def}",
-               f"the rotation is built from axis `{ax_def}` and angle `{ang_def}`; it must be about the bond {a}[1]->{a}[2] by (target - current dihedral)")
+    # --- orientation bookkeeping --------------------------------------------------------------------------------
+    # Fact (geometry): with column vectors x' = R x, the right-handed rotation about the axis b->c by +t of the side
+    # that holds d raises the IUPAC dihedral (a,b,c,d) by t.  Every convention that deviates flips the sign once:
+    #   s_ang   coefficient of (target - current) in the angle handed to rotation_matrix_from_axis   (+1 / -1)
+    #   s_axis  +1 for the axis b->c (vector(atoms[1], atoms[2]) = pos[2] - pos[1]), -1 for c->b
+    #   s_conv  +1 if transform applies M @ x, -1 if it applies x @ M (row vectors: the transpose, i.e. -t)
+    #   s_rod   +1 if rotation_matrix_from_axis is I + sin(t) [k]x + (1 - cos t) [k]x^2 with the standard cross-product
+    #           matrix [k]x, -1 for its transpose
+    #   s_dih   +1 if dihedral() is atan2(|u2| u1.(u2 x u3), (u1 x u2).(u2 x u3)) with u_i the successive bond vectors
+    # The dihedral ends at the target iff s_ang * s_axis * s_conv * s_rod * s_dih = +1 and the coefficient is exactly 1.
+    from ..canon import Env
+
+    env = Env(f.node)
+    tparam = f.params()[2]
+
+    def linear(e):
+        """{name: coefficient} for +, -, unary -, * numeric constant over names; None if not of that form"""
+        if isinstance(e, ast.Name):
+            return {e.id: 1.0}
+        if isinstance(e, ast.Constant) and isinstance(e.value, (int, float)):
+            return {"": float(e.value)}
+        if isinstance(e, ast.UnaryOp) and isinstance(e.op, (ast.USub, ast.UAdd)):
+            d = linear(e.operand)
+            return None if d is None else {k: (-v if isinstance(e.op, ast.USub) else v) for k, v in d.items()}
+        if isinstance(e, ast.BinOp) and isinstance(e.op, (ast.Add, ast.Sub)):
+            l, r = linear(e.left), linear(e.right)
+            if l is None or r is None:
+                return None
+            out = dict(l)
+            for k, v in r.items():
+                out[k] = out.get(k, 0.0) + (v if isinstance(e.op, ast.Add) else -v)
+            return out
+        if isinstance(e, ast.BinOp) and isinstance(e.op, ast.Mult):
+            l, r = linear(e.left), linear(e.right)
+            if l is not None and set(l) == {""} and r is not None:
+                return {k: v * l[""] for k, v in r.items()}
+            if r is not None and set(r) == {""} and l is not None:
+                return {k: v * r[""] for k, v in l.items()}
+        return None
+
+    lin = linear(env.expand(ang, keep=set(dih) | {tparam})) if ang is not None and dih else None
+    s_ang = None
+    if lin is not None:
+        lin = {k: v for k, v in lin.items() if v != 0.0}
+        if set(lin) == {tparam, dih[0]} and lin[tparam] == -lin[dih[0]] and abs(lin[tparam]) == 1.0:
+            s_ang = int(lin[tparam])
+    s_axis = {f"self.vector({a}[1], {a}[2])": 1, f"self.vector({a}[2], {a}[1])": -1}.get(ax_def)
+    vec = prog.func("molli.chem.geometry:CartesianGeometry.vector")
+    venv = Env(vec.node)
+    vret = [venv.expand(s.value, keep=set()) for s in walk_no_nested(vec.node) if isinstance(s, ast.Return) and s.value is not None]
+    p1, p2 = vec.params()[1], vec.params()[2]
+    vr = vret[0] if len(vret) == 1 and isinstance(vret[0], ast.BinOp) and isinstance(vret[0].op, ast.Sub) else None
+    if vr is not None and norm(vr.right) == f"self.get_atom_coord({p1})" and p2 in names_in(vr.left) and p1 not in names_in(vr.left):
+        pass  # vector(a1, a2) = position(a2) - position(a1): points a1 -> a2
+    elif vr is not None and norm(vr.left) == f"self.get_atom_coord({p1})" and p2 in names_in(vr.right) and p1 not in names_in(vr.right):
+        s_axis = -s_axis if s_axis else None
+    else:
+        raise AnalysisError("CartesianGeometry.vector: cannot read the direction of the returned vector - unknown idiom")
+    s_conv = _transform_convention(chk)
+    s_rod = _rodrigues_handedness(chk)
+    s_dih = _dihedral_convention(chk)
+    parts = dict(angle=s_ang, axis=s_axis, transform=s_conv, rodrigues=s_rod, dihedral=s_dih)
+    okall = all(v in (1, -1) for v in parts.values()) and s_ang * s_axis * s_conv * s_rod * s_dih == 1
+    chk.decide(okall, "C11.R2", f"{f.key}:axis-and-angle", f.where(rc), f"axis = {ax_def}; angle = {ang_def}; orientation signs {parts} multiply to +1",
+               f"the rotation is built from axis `{ax_def}` and angle `{ang_def}`; orientation signs {parts} "
+               + ("do not multiply to +1: the far side turns away from the target, the dihedral ends at 2*current - target instead of target"
+                  if all(v in (1, -1) for v in parts.values()) else "- the angle is not +/-(target - current dihedral) about the bond axis"))
     sub = [n for n, vals in asg.items() for v in vals if isinstance(v, ast.Call) and norm(v.func) == "self.substructure"]
     chk.require(len(sub) == 1, "rotate_dihedral: moved substructure not found")
     sd = one(sub[0])
@@ -135,6 +198,130 @@ def r2_dihedral(chk):
     ok = bool(org) and seq == [("translate", f"-{org[0]}"), ("transform", R[0]), ("translate", org[0])]
     chk.decide(ok, "C11.R2", f"{f.key}:pivot-restored", f.where(), f"{seq}",
                f"the moved part goes through {seq}; it must be translate(-origin), transform(R), translate(origin) with origin = position of {a}[1], otherwise the fragment is displaced, not rotated about the bond")
+
+
+def _transform_convention(chk):
+    """+1: coords = M @ coords-as-columns; -1: coords = coords @ M (row vectors)"""
+    f = chk.prog.func("molli.chem.geometry:CartesianGeometry.transform")
+    chk.analysed(f)
+    m = f.params()[1]
+    from ..canon import Env
+
+    env = Env(f.node)
+    for s in walk_no_nested(f.node):
+        if isinstance(s, (ast.Assign, ast.AugAssign)) and norm(s.targets[0] if isinstance(s, ast.Assign) else s.target) in ("self.coords", "self._coords", "self.coords[:]", "self._coords[:]"):
+            v = env.expand(s.value, keep={m}) if isinstance(s, ast.Assign) else ast.BinOp(s.target, s.op, s.value)
+            if isinstance(v, ast.BinOp) and isinstance(v.op, ast.MatMult):
+                l, r = norm(env.expand(v.left, keep={m})), norm(env.expand(v.right, keep={m}))
+                mats = {m, f"np.array({m})", f"np.asarray({m})"}
+                if l in ("self.coords", "self._coords") and r in mats:
+                    return -1
+                if l in mats and r in ("self.coords.T", "self._coords.T"):
+                    return 1
+    raise AnalysisError("CartesianGeometry.transform: cannot read whether the matrix multiplies from the left or from the right - unknown idiom")
+
+
+def _rodrigues_handedness(chk):
+    """+1 for I + sin(t) K + (1 - cos t) K^2 with K the standard cross-product matrix of the unit axis, -1 for K transposed / -sin"""
+    f = chk.prog.func("molli.math.rotation:rotation_matrix_from_axis")
+    chk.analysed(f)
+    from ..canon import Env
+
+    env = Env(f.node)
+    ang = f.params()[1]
+    rets = [s for s in walk_no_nested(f.node) if isinstance(s, ast.Return) and s.value is not None]
+    if len(rets) != 1:
+        raise AnalysisError("rotation_matrix_from_axis: expected one return")
+    asg = assignments(f.node)
+    # the 3x3 literal
+    mats = [(n, v) for n, vals in asg.items() for v in vals if isinstance(v, ast.Call) and (call_name(v) or "").endswith("array") and v.args
+            and isinstance(v.args[0], (ast.List, ast.Tuple)) and len(v.args[0].elts) == 3 and all(isinstance(r, (ast.List, ast.Tuple)) and len(r.elts) == 3 for r in v.args[0].elts)]
+    if len(mats) != 1:
+        raise AnalysisError("rotation_matrix_from_axis: cross-product matrix literal not found - unknown idiom")
+    K, lit = mats[0]
+    rows = [[norm(x) for x in r.elts] for r in lit.args[0].elts]
+    # component names: `x, y, z = axis / |axis|`
+    comp = None
+    for s in walk_no_nested(f.node):
+        if isinstance(s, ast.Assign) and isinstance(s.targets[0], ast.Tuple) and len(s.targets[0].elts) == 3 and "norm" in norm(s.value):
+            comp = [norm(t) for t in s.targets[0].elts]
+    if comp is None:
+        raise AnalysisError("rotation_matrix_from_axis: unit axis components not found - unknown idiom")
+    x, y, z = comp
+    std = [["0", f"-{z}", y], [z, "0", f"-{x}"], [f"-{y}", x, "0"]]
+    tr = [[std[j][i] for j in range(3)] for i in range(3)]
+    if rows == std:
+        sK = 1
+    elif rows == tr:
+        sK = -1
+    else:
+        raise AnalysisError("rotation_matrix_from_axis: the 3x3 literal is neither the cross-product matrix of the axis nor its transpose")
+    # coefficient of K in the returned sum
+    ret = env.expand(rets[0].value, keep={K, ang})
+    terms = []
+
+    def flat(e, sign=1):
+        if isinstance(e, ast.BinOp) and isinstance(e.op, (ast.Add, ast.Sub)):
+            flat(e.left, sign)
+            flat(e.right, sign if isinstance(e.op, ast.Add) else -sign)
+        else:
+            terms.append((sign, e))
+
+    flat(ret)
+    lin_terms = [(sg, t) for sg, t in terms if isinstance(t, ast.BinOp) and isinstance(t.op, ast.Mult) and K in (norm(t.left), norm(t.right))]
+    if len(lin_terms) != 1:
+        raise AnalysisError("rotation_matrix_from_axis: the term linear in the cross-product matrix was not found - unknown idiom")
+    sg, t = lin_terms[0]
+    coef = norm(t.left) if norm(t.right) == K else norm(t.right)
+    if coef in (f"math.sin({ang})", f"np.sin({ang})", f"sin({ang})"):
+        ssin = 1
+    elif coef in (f"-math.sin({ang})", f"-np.sin({ang})", f"-sin({ang})", f"math.sin(-{ang})", f"np.sin(-{ang})"):
+        ssin = -1
+    else:
+        raise AnalysisError(f"rotation_matrix_from_axis: coefficient `{coef}` of the cross-product matrix is not +/- sin(angle)")
+    return sK * ssin * sg
+
+
+def _dihedral_convention(chk):
+    """+1 if dihedral(a1..a4) = atan2(|u2| u1.(u2 x u3), (u1 x u2).(u2 x u3)) with u1 = p2 - p1, u2 = p3 - p2, u3 = p4 - p3 (IUPAC sign)"""
+    f = chk.prog.func("molli.chem.geometry:CartesianGeometry.dihedral")
+    chk.analysed(f)
+    from ..canon import Env
+
+    env = Env(f.node)
+    ps = f.params()[1:5]
+    asg = assignments(f.node)
+    # position symbols: P1..P4
+    pos = {}
+    for s in walk_no_nested(f.node):
+        if isinstance(s, ast.Assign) and isinstance(s.targets[0], ast.Tuple) and len(s.targets[0].elts) == 4:
+            v = norm(s.value)
+            names = [norm(t) for t in s.targets[0].elts]
+            args = ", ".join(ps)
+            if v in (f"map(self.get_atom_index, ({args}))", f"[self.get_atom_index(x) for x in ({args})]", f"self.get_atom_indices({args})"):
+                for k, nm in enumerate(names):
+                    pos[f"self.coords[{nm}]"] = f"P{k + 1}"
+                    pos[f"self._coords[{nm}]"] = f"P{k + 1}"
+            elif v in (f"self.coord_subset(({args}))", f"self.coord_subset([{args}])", f"self.coord_subset({args})"):
+                for k, nm in enumerate(names):
+                    pos[nm] = f"P{k + 1}"
+    for k, p in enumerate(ps):
+        pos[f"self.get_atom_coord({p})"] = f"P{k + 1}"
+    rets = [s for s in walk_no_nested(f.node) if isinstance(s, ast.Return) and s.value is not None]
+    if len(rets) != 1:
+        raise AnalysisError("dihedral: expected one return")
+    keep = {n for n in asg if n in pos}
+    e = env.expand(rets[0].value, keep=keep, depth=8)
+    txt = norm(e)
+    for k_, v_ in sorted(pos.items(), key=lambda kv: -len(kv[0])):
+        txt = txt.replace(k_, v_)
+    u1, u2, u3 = "P2 - P1", "P3 - P2", "P4 - P3"
+    want = [f"np.arctan2(np.linalg.norm({u2}) * np.dot({u1}, np.cross({u2}, {u3})), np.dot(np.cross({u1}, {u2}), np.cross({u2}, {u3})))",
+            f"np.arctan2(np.dot({u1}, np.cross({u2}, {u3})) * np.linalg.norm({u2}), np.dot(np.cross({u1}, {u2}), np.cross({u2}, {u3})))",
+            f"math.atan2(np.linalg.norm({u2}) * np.dot({u1}, np.cross({u2}, {u3})), np.dot(np.cross({u1}, {u2}), np.cross({u2}, {u3})))"]
+    if txt in want:
+        return 1
+    raise AnalysisError(f"dihedral: the returned expression `{txt[:160]}` is not the atan2 form this rule knows the sign convention of - unknown idiom")
 
 
 def r3_alignment(chk):
